@@ -199,4 +199,70 @@ def rule_attribute_availability(ctx):
     decide(ctx, "O17.3", "field construction under every format", "cutplace.fields.AbstractFieldFormat.__init__", cell, min_cells=32)
 
 
-RULES = [rule_auto_rows, rule_raw_rows, rule_attribute_availability]
+def rule_format_independent_hooks(ctx):
+    """
+    O17.4: the same text cell gets the same verdict whatever the Format property says.  (a) no value hook reads the data
+    format except DateTime's documented Excel rule; (b) DateTime.validated_value is interpreted for every format on
+    the same cell with the same library outcome: the call to time.strptime and the verdict agree across formats, the
+    only exception being the documented removal of Excel's ' 00:00:00' for rules WITHOUT a time part.
+    """
+    import ast
+
+    from ..absint import Atom
+    from ..model import walk_own
+
+    model = ctx.model
+    ctx.res.minimum("O17.4", 9)
+    for cls in model.subclasses(model.cls("cutplace.fields.AbstractFieldFormat")):
+        hook = cls.methods.get("validated_value")
+        if hook is None:
+            continue
+        reads = [ast.unparse(node) for node in walk_own(hook.node) if isinstance(node, ast.Attribute) and node.attr in ("data_format", "_data_format")]
+        what = "%s.validated_value does not depend on the data format" % cls.name
+        if reads and cls.name != "DateTimeFieldFormat":
+            ctx.res.fail("O17.4", what, "%s.validated_value:O17.4:data_format" % cls.qualname.replace("cutplace.", ""),
+                         "%s (%s.validated_value)" % (hook.loc(), cls.name),
+                         "the value hook reads %s: the same cell may get a different verdict under another Format" % reads[0])
+        else:
+            ctx.res.ok("O17.4", what + (" (DateTime: decided by the relational table)" if reads else ""), True)
+
+    datetime_cls = model.cls("cutplace.fields.DateTimeFieldFormat")
+
+    def run(ch, rule, format_name, value, parses):
+        seen = []
+        parsed = Atom("time-tuple", "time-tuple", is_str=False)
+
+        def strptime(interp_, args, kwargs):
+            seen.append(tuple(args))
+            if parses == "ValueError":
+                interp_.raise_("builtins.ValueError", "does not match")
+            return parsed
+
+        interp = Interp(model, ch, externals={"time.strptime": strptime, "sys.exc_info": lambda i, a, k: (None, Opaque("error"), None)},
+                        stubs={"cutplace.ranges.Range": stub(lambda i, a, k: Obj(model.cls("cutplace.ranges.Range"), {}))})
+        world = World(model, interp, ch)
+        field = interp.instantiate(ClassRef(datetime_cls), ["d", False, "", rule, world.data_format(format_name)], {})
+        try:
+            result = interp.call_function(model.func("cutplace.fields.DateTimeFieldFormat.validated_value"), [field, value], {}, None)
+            outcome = "time-tuple" if result is parsed else repr(result)
+        except AbsRaise as raised:
+            outcome = "raise " + exc_name(raised.value)
+        return (tuple(seen), outcome)
+
+    def cell(ch):
+        rule = ch.choose("rule", ["YYYY-MM-DD", "YYYY-MM-DD hh:mm:ss", "hh:mm:ss", "DD.MM.YY hh:mm"])
+        value = ch.choose("cell", ["2012-04-01", "2012-04-01 00:00:00", "2012-04-01 12:30:00", "00:00:00"])
+        parses = ch.choose("strptime", ["ok", "ValueError"])
+        reference = run(ch, rule, "delimited", value, parses)
+        problems = []
+        for format_name in ("ods", "excel", "fixed"):
+            other = run(ch, rule, format_name, value, parses)
+            documented_exception = format_name == "excel" and "hh" not in rule and value.endswith(" 00:00:00")
+            if other != reference and not documented_exception:
+                problems.append("format %s: %r, delimited: %r" % (format_name, other, reference))
+        return ("rule=%r cell=%r strptime=%s" % (rule, value, parses), "; ".join(problems) if problems else "same verdict", "same verdict")
+
+    decide(ctx, "O17.4", "DateTime verdict is independent of the format", "cutplace.fields.DateTimeFieldFormat.validated_value", cell, min_cells=32)
+
+
+RULES = [rule_auto_rows, rule_raw_rows, rule_attribute_availability, rule_format_independent_hooks]
